@@ -152,6 +152,31 @@ def adjustments(R, rep):
                f"the guard's basis selects lots with held {sorted(pb)} 0 but the adjustment is spread over lots with held {sorted(pa)} 0: "
                "cost of fully-sold lots can absorb a return on paper and a held lot goes negative",
                basis_fn.loc(), key="R2:capreturn:basis-predicate")
+        # R2c: "…that the expenditure remaining ON THE SHARES HELD cannot absorb": what each counted lot contributes to the basis
+        # is the cost of its held shares (held × unit cost). A lot's WHOLE cost — including the part that left with shares sold
+        # earlier — lets a return through that exceeds what is left (known finding on today's tree: BUY 10@100, BUY 5@100,
+        # SELL 14, CAPRETURN 1 TOTAL 400 is accepted with £100 left on the one share held)
+        import dims
+        D = dims.Dims(F)
+        weighted = None
+        for x in [basis_fn] + [F.bodies[c_] for c_ in F.children(basis_fn.id)]:
+            xt = Terms(F, x, inline_depth=0)
+            r0 = xt.local(0)
+            if x.kind == "closure" and "Decimal" in x.ret and not (isinstance(r0, tuple) and r0 and r0[0] == "cmp"):
+                calls = [z for z in subterms(r0) if isinstance(z, tuple) and z and z[0] == "call"]
+                has_q = any(D.ret_dim(z[1]) == dims.Q or "held" in z[1] or "available" in z[1] for z in calls if z[1] in F.bodies)
+                weighted = has_q if weighted is None else (weighted and has_q)
+            for j, u in x.calls():
+                if is_decimal_arith_assign(u["callee"]) == "AddAssign" and x.id == basis_fn.id:
+                    rhs = xt.operand(u["args"][1])
+                    calls = [z for z in subterms(rhs) if isinstance(z, tuple) and z and z[0] == "call"]
+                    has_q = any(D.ret_dim(z[1]) == dims.Q or "held" in z[1] or "available" in z[1] for z in calls if z[1] in F.bodies)
+                    weighted = has_q if weighted is None else (weighted and has_q)
+        if weighted is not None:
+            rep.ob("R2", "capreturn:basis-is-cost-of-held-shares", weighted,
+                   "each counted lot contributes the cost of the shares still held" if weighted else
+                   f"`{basis_fn.short}` adds the WHOLE adjusted cost of every lot that still has a share: a capital return larger than the expenditure left "
+                   "on the shares held is accepted as long as it fits the original cost of those lots", basis_fn.loc(), key="R2:capreturn:basis-whole-lot-cost")
     return appo
 
 
@@ -296,6 +321,15 @@ def run(ctx, rep):
         order_and_who(R, rep, appo)
     dividend_isolation(R, rep)
     dimension_discipline(ctx.F, rep)
+    # "by exactly its net amount": what the pre-pass apportioned to a lot reaches the lot unmodified (shared with C03-R3); a
+    # scaled offset moves less (or more) than the event's amount (seeded changes C03-s3 / C11-s6)
+    import rules.c03 as c03
+    from core import Report as _Report
+    r9 = _Report("tmp")
+    c03.offsets_prov(R, r9)
+    for o in r9.obligations:
+        if o["instance"].startswith("add_acquisition:offset"):
+            rep.ob("R1", o["instance"], o["ok"], o["detail"], o["site"], key="R1:" + o["instance"])
     # "in any currency": the event's value AND its fees reach the matcher in pounds at the line's own month's rate (shared with
     # C08-R1); a fee left in its own currency is netted off the GBP distribution as if it were pounds (seeded change C11-s4)
     import rules.c08 as c08
